@@ -136,7 +136,7 @@ def to_float(x):
     if _isinstance(x, Poison):
         return x
     if _isinstance(x, S.SStr):
-        raise OutOfModel('float() of symbolic string')
+        return S.parse_float(x)
     if _isinstance(x, symnp.ndarray):
         if x.size != 1:
             raise TypeError('only length-1 arrays can be converted to Python scalars')
